@@ -17,7 +17,7 @@ RULE = ('Random well-nested write histories: 1-3 interchanges x 0-3 groups x 0-3
 ASSUMPTIONS = ['a sibling header while a loop of the same level is still open is outside the property\'s domain and not generated',
                'data contains none of the writer\'s delimiters; about a tenth of the histories re-use a control number within its scope: counts and trailers must still be true, only the duplicate-id finding itself is then ignored on re-reading',
                'check_837_lx (LX renumbering) left at its default']
-REQUIRED_COUNTERS = ['histories', 'runs', 'runs:cut', 'runs:control-number-reused', 'trailers:omitted', 'trailers:wrong', 'reader-rechecks', 'isa:00501', 'isa:00401']
+REQUIRED_COUNTERS = ['trailers:wrong:earlier-sibling-id', 'histories', 'runs', 'runs:cut', 'runs:control-number-reused', 'trailers:omitted', 'trailers:wrong', 'reader-rechecks', 'isa:00501', 'isa:00401']
 MIN_CASES = {'quick': 4000, 'thorough': 1500000}
 
 TERMS = [('~', '*', ':', '^', '\n'), ('!', '|', '>', '^', ''), ('\x1c', '\x1d', '<', '\x1f', '\r\n'), ('\n', '*', ':', '^', ''), ('~', '*', '\\', '^', '\n'),
@@ -107,9 +107,14 @@ def play(ctx, ev, cut, terms, meta):
             if lv == level:
                 return
 
+    prev_ids = {'ST': [], 'GS': [], 'ISA': []}
     for e in ev[:cut]:
         if e[0] == 'open':
             _, lv, cid, arg = e
+            if lv == 'GS':
+                prev_ids['ST'] = []
+            elif lv == 'ISA':
+                prev_ids['GS'] = []
             if lv == 'ISA':
                 els = RE.isa_elements(cid, arg, sub=':')
                 segstr = 'ISA*' + '*'.join(els)
@@ -144,9 +149,16 @@ def play(ctx, ev, cut, terms, meta):
                 seg = '%s*%d*%s' % (tr, cnt, cid)
             else:
                 info['wrong'] += 1
-                r = zlib.crc32(repr((meta, len(want))).encode()) % 6
-                seg = [tr + '*99*' + cid, tr + '*X*' + cid, tr + '**9999', tr, tr + '*%d*WRONG' % cnt, tr + '*0'][r]
+                r = zlib.crc32(repr((meta, len(want))).encode()) % 8
+                # (6, 7): the right count with the control number of an EARLIER sibling of the same scope (sets cloned from a template that
+                # all kept the first one's SE02): the trailer written must still carry its own header's number
+                earlier = [x for x in prev_ids[lv] if x != cid]
+                other = earlier[-1] if earlier else 'WRONG'
+                if earlier and r >= 6:
+                    info['wrong:earlier-sibling-id'] = info.get('wrong:earlier-sibling-id', 0) + 1
+                seg = [tr + '*99*' + cid, tr + '*X*' + cid, tr + '**9999', tr, tr + '*%d*WRONG' % cnt, tr + '*0', tr + '*%d*%s' % (cnt, other), tr + '*%d*%s' % (cnt, other)][r]
             w.Write(S.Segment(seg, '~', '*', ':'))
+            prev_ids[lv].append(cid)
             close_model(lv)
     open_at_close = len(stack)
     w.Close()
@@ -214,6 +226,7 @@ def one(ctx, ev, cut, terms, meta):
         return None
     ctx.count('trailers:omitted', info['omitted'])
     ctx.count('trailers:wrong', info['wrong'])
+    ctx.count('trailers:wrong:earlier-sibling-id', info.get('wrong:earlier-sibling-id', 0))
     st, et, sb, rep, eol = terms
     if got != want:
         gl = got.split(st)
